@@ -239,6 +239,10 @@ def notation_chunk(args):
                 if bridge.expand(n(*r)) != bridge.expand(app):
                     out['viol'].append(({'op': fname, 'notation': n.label, 'arity': n.arity, 'args': repr(tuple(app.inst.values()))},
                                         f'{n.label}.{fname}({app}) returns arguments that rebuild a different pattern'))
+                elif not (n(*r) == app) or not (app == n(*r)):
+                    # "rebuild an EQUAL pattern": by the toolkit's own equality too (callers compare with ==)
+                    out['viol'].append(({'op': fname + '/eq', 'notation': n.label, 'arity': n.arity, 'args': repr(tuple(app.inst.values()))},
+                                        f'{n.label}.{fname}({app}) rebuilds a pattern with the same expansion that does not compare equal (==) to the application'))
             if n.arity == 0:
                 out['arity0'] += 1
             # the expansion (no notation at all) must be recognised too
